@@ -99,6 +99,28 @@ def rule_id_pairing(ctx):
         if reg and send:
             aw = [x for x in tr[(chk[-1] if chk else 0):reg[0]] if x[0] == "await"]
             ctx.check(reg[0] < send[0] and not aw and bool(chk), ac.fq, "pending entry registered before the send, with no await after the liveness check", f"registered after send or with {len(aw)} await(s) in between: the receive loop can end and strand the future, or the reply can arrive before the entry exists", "registered first")
+    # when the caller is cancelled while its request is being flushed, the request is already in the write buffer and
+    # will be answered: the entry must stay (an unknown id in a response ends the receive loop and fails every other
+    # call of the client), so the handler that forgets the entry must not be the one that sees CancelledError
+    n_try = 0
+    for t in [x for x in ast.walk(ac.node) if isinstance(x, ast.Try)]:
+        if not any(callee_name(c) == "_send_stream_message" for st_ in t.body for c in calls_in(st_)):
+            continue
+        n_try += 1
+        first = None
+        for h in t.handlers:
+            ty = ast.unparse(h.type) if h.type is not None else "<bare>"
+            if ty in ("<bare>", "BaseException", "asyncio.CancelledError", "CancelledError") or "CancelledError" in ty:
+                first = (h, ty)
+                break
+        if first is None:
+            ctx.ok(ac.fq, "no handler around the send sees CancelledError", "a cancelled caller leaves its entry in place")
+            continue
+        h, ty = first
+        pops = [c for c in calls_in(h) if callee_name(c) == "pop" and "_pending" in ast.unparse(c.func)]
+        ctx.check(not pops and any(isinstance(x, ast.Raise) for x in ast.walk(h)), ac.fq, "a caller cancelled while flushing keeps its pending entry", f"the `except {ty}` clause around the send forgets the entry also when the caller was merely cancelled: the request is answered all the same, the response carries an id nobody knows, the receive loop raises and every other call in flight on the client fails", "entry kept on CancelledError", where=ctx.where_of(ac, h))
+    if n_try == 0:
+        raise AnalysisError("SocketAsyncRPCClient.__call__: send is no longer inside a try block")
     src = _norm(ast.unparse(ac.node))
     ctx.check("call_id = self._next_call_id()" in src and "return _decode_response(await future, call" in src, ac.fq, "fresh id per call; the caller awaits its own future", "changed", "ok")
     nc = ctx.prog.func("rpc._SocketClientState._next_call_id")
@@ -326,6 +348,7 @@ RULES = [
 ]
 
 MUTANTS = [
+    Mutant("cancelled-send-forgets-entry", "rpc.py", in_function("SocketAsyncRPCClient.__call__", lambda s: s.replace("        except asyncio.CancelledError:", "        except asyncio.TimeoutError:", 1) if "        except asyncio.CancelledError:" in s else None), ("R-C16-2",)),
     Mutant("shared-task-set", "rpc.py", replace_once("_tasks: set[asyncio.Task] = attrs.field(init=False, factory=set)", "_tasks: set[asyncio.Task] = attrs.field(init=False, default=set())"), ("R-C16-8",)),
     Mutant("single-recv", "rpc.py", in_function("_SocketReader.readexactly", replace_once("        while len(self._buffer) < size:\n            fragment = self.sock.recv(4096)\n            if len(fragment) == 0:\n", "        if len(self._buffer) < size:\n            fragment = self.sock.recv(max(size, 4096))\n            if len(fragment) < size - len(self._buffer):\n")), ("R-C16-8",)),
     Mutant("no-gate", "rpc.py", in_function("_call_procedure", replace_once("    if not is_rpc_allowed(procedure):\n        raise RPCError(f\"Remote procedure {call.name} exists but is not allowed\")\n", "")), ("R-C16-1",)),
